@@ -62,6 +62,7 @@ type retState struct {
 }
 
 type Engine struct {
+	lockHavoc bool // concurrent mode: acquiring a lock invalidates everything known about shared memory
 	p   *Program
 	eff *Effects
 	tt  *termTable
@@ -1415,6 +1416,16 @@ func (fa *FnAnalysis) transferCall(st *State, in ssa.Instruction, c *ssa.CallCom
 			if !onlyLock {
 				fa.bump(st, in, locs...)
 				fa.killHeap(st, locs)
+			} else if e.lockHavoc && relName(callee) == "(*stack).lock" {
+				// concurrent mode: while this goroutine waited for the lock any other one may have
+				// changed the shared structure; nothing read before the acquisition is still known
+				fa.bump(st, in)
+				st.heap = map[string]heapCell{}
+				st.dropEpochs(func(ep int) bool { return true })
+				for l := range st.locEp {
+					st.locEp[l] = st.epoch
+				}
+				st.locEp["HDR"] = st.epoch
 			}
 		}
 		fa.refineCall(st, v)
